@@ -126,3 +126,28 @@ Theorem string_lists_definitions :
   /\ (forall t en v, In v (en_values en) -> In (name_line (S t) (va_ent v)) (enum_lines t en)).
 Proof. exact (conj type_in_std (conj unit_in_std (conj enum_in_enum value_in_enum))). Qed.
 Print Assumptions string_lists_definitions.
+
+(* ---------------------------------------------------------------- row width on the RENDERED line *)
+(* [render_row cells] is the printed table line ("| c1 | c2 |", tablewriter's padding aside),
+   [split_unescaped] cuts a line at the pipes that are not directly preceded by a backslash
+   (Acme.C16.Render).  An escaped cell contains no line break and no unescaped pipe, so the
+   rendered line of any row of escaped cells is read back as exactly those cells ... *)
+From Acme.C16 Require Import Render ProofsRender.
+
+Theorem rendered_row_roundtrip : forall raw,
+  split_unescaped (render_row (map esc_cell raw)) = map esc_cell raw
+  /\ Forall (fun c => no_breakb c = true) (map esc_cell raw).
+Proof. exact escaped_row_roundtrip. Qed.
+Print Assumptions rendered_row_roundtrip.
+
+(* ... and in the document every table's rendered header and rendered rows are read back as their
+   cell lists, every row is a single line, and every rendered row has as many cells as the
+   rendered header: "every table row has as many cells as its header" on the text. *)
+Theorem md_rows_width_rendered : forall n bs h rows,
+  md n = Ok bs -> In (Table h rows) bs ->
+  split_unescaped (render_row h) = h
+  /\ Forall (fun r => split_unescaped (render_row r) = r
+                     /\ Forall (fun c => no_breakb c = true) r
+                     /\ List.length (split_unescaped (render_row r)) = List.length (split_unescaped (render_row h))) rows.
+Proof. exact md_rows_width_rendered_lemma. Qed.
+Print Assumptions md_rows_width_rendered.
